@@ -13,6 +13,7 @@ import ProfiVerif.Lemmas.TimedRingCrash
 import ProfiVerif.Lemmas.TimedRingAgree
 import ProfiVerif.Lemmas.ColdStart
 import ProfiVerif.Lemmas.ColdStartSolo
+import ProfiVerif.Lemmas.ListenLearn
 
 namespace PV.C06
 open PV
@@ -893,5 +894,94 @@ example : LoneRun 0 3 4800 4900 (cfgR.formTime 10) netOne (apList 90 0 140) :=
 
 open PV.C13 in
 example : cfgR.formTime 10 = 6352 := by decide
+
+/-! ## Cold start / late joiner, phase (b) at station level: the listener learns the ring of the lone holder -/
+
+/-- Three or more witnessed passes `aL → aL` give a fresh station a valid LAS that is exactly `{aL}`. -/
+theorem witnessK_ready (aL me : Nat) (haL : aL ≤ 125) : ∀ k, 3 ≤ k →
+    (witnessK aL k (TokenRing.new me)).las = .valid ∧ TokenRing.LasIs (witnessK aL k (TokenRing.new me)) [aL] := by
+  have hring : C02.Ring [aL] := ⟨by simp, trivial, by intro z hz; simp only [List.mem_singleton] at hz; omega⟩
+  have h3 := C02.las_learns me [aL] hring aL aL haL haL (Nat.le_refl _)
+  have key : ∀ j, (witnessK aL j (witnessK aL 3 (TokenRing.new me))).las = .valid ∧
+      TokenRing.LasIs (witnessK aL j (witnessK aL 3 (TokenRing.new me))) [aL] := by
+    intro j
+    have gen : ∀ (j : Nat) (r : TokenRing), r.las = .valid → TokenRing.LasIs r [aL] →
+        (witnessK aL j r).las = .valid ∧ TokenRing.LasIs (witnessK aL j r) [aL] := by
+      intro j
+      induction j with
+      | zero => intro r h1 h2; exact ⟨h1, h2⟩
+      | succ j ih =>
+        intro r h1 h2
+        unfold witnessK
+        apply ih
+        · rw [TokenRing.witness_valid r aL aL h1 haL haL]; exact (TokenRing.updateLas_las r _ _).1.trans h1
+        · rw [TokenRing.witness_valid r aL aL h1 haL haL]
+          have := TokenRing.updateLas_succ_stable r [aL] aL h2 (by simp)
+          rw [cycSucc_single] at this
+          exact this
+    exact gen j _ h3.1 h3.2
+  have hadd : ∀ (a b : Nat) (r : TokenRing), witnessK aL (a + b) r = witnessK aL b (witnessK aL a r) := by
+    intro a
+    induction a with
+    | zero => intro b r; simp [witnessK]
+    | succ a ih =>
+      intro b r
+      rw [Nat.succ_add]
+      show witnessK aL (a + b) (r.witness aL aL) = witnessK aL b (witnessK aL a (r.witness aL aL))
+      exact ih b _
+  intro k hk
+  have : k = 3 + (k - 3) := by omega
+  rw [this, hadd]
+  exact key (k - 3)
+
+/-- **Phase (b): LAS learning of a listener under arbitrary chunking** (station level).  A freshly started station
+(`TokenRing.new`, `ListenToken`, empty buffer) overhears the traffic of a lone token holder `aL` — self-addressed
+tokens and GAP requests to addresses other than its own — delivered in arbitrary chunks at arbitrary poll times,
+never `Tto` after the last poll that brought new bytes (`FeedOk`).  Every poll returns regularly and transmits
+nothing; at the end the station is still in `ListenToken` with an empty buffer, and if the stream contained at
+least three tokens its LAS is valid and equals `{aL}`: it is ready for the ring, so that it answers the next GAP
+request addressed to it with "ready" (`PV.C12.listen_reply`). -/
+theorem listener_learns_lone_ring (apps : Apps) (aL coll : Nat) (haL : aL ≤ 125) (ins : List (Int × Bytes)) (s : Station)
+    (rem : List Telegram) (l tp : Int) (hon : s.online = true) (hst : s.st = .listenToken none coll)
+    (hl : s.lastBusActivity = some l) (hltp : l ≤ tp) (hpb : s.pendingBytes = 0) (hne : aL ≠ s.p.address)
+    (hto : 0 < s.p.tokenLostTimeout) (hring : s.ring = TokenRing.new s.p.address)
+    (hstream : (ins.map Prod.snd).flatten = streamOf rem) (hlone : ∀ t ∈ rem, LoneTel aL s.p.address t)
+    (h3 : 3 ≤ countTok rem) (hfeed : FeedOk s.p.tokenLostTimeout l tp ins) :
+    ∃ s', listenRun apps s [] ins = some (s', []) ∧ s'.st = .listenToken none coll ∧ s'.online = true ∧ s'.p = s.p ∧
+      s'.ring = hearAll aL rem s.ring ∧ s'.ring.readyForRing = true ∧ TokenRing.LasIs s'.ring [aL] := by
+  obtain ⟨s', hrun, a1, a2, a3, a4⟩ := listen_learns apps aL coll (by omega) ins s [] rem l l tp hon hst hl (Int.le_refl _) hltp
+    (by rw [hpb]; exact Nat.zero_le _) hne hto (by simpa using hstream) hlone
+    (fun t ht => by
+      have : t ∈ rem := by cases rem with
+        | nil => cases ht
+        | cons a r => simp only [List.head?_cons, Option.some.injEq] at ht; subst ht; exact List.mem_cons_self ..
+      simpa using (hlone t this).wire_pos) hfeed
+  have hr := witnessK_ready aL s.p.address haL (countTok rem) h3
+  rw [← hearAll_count, ← hring, ← a4] at hr
+  refine ⟨s', hrun, a1, a2, a3, a4, ?_, hr.2⟩
+  unfold TokenRing.readyForRing
+  rw [hr.1]; rfl
+
+/-! Non-vacuity of phase (b): station 5 (fresh, listening since 50 µs) overhears three tokens of station 3 and a GAP
+request to address 4, cut into three chunks in the middle of telegrams. -/
+def remB : List Telegram :=
+  [.token 3 3, .token 3 3, reqTel 4 3, .token 3 3]
+def insB : List (Int × Bytes) :=
+  [(100, [0xDC, 3]), (200, [3, 0xDC, 3, 3, 0x10, 4]), (300, [3, 0x49, 0x50, 0x16, 0xDC, 3, 3])]
+
+example : ∃ s', listenRun [] sL5 [] insB = some (s', []) ∧ s'.st = .listenToken none 0 ∧ s'.online = true ∧ s'.p = sL5.p ∧
+    s'.ring = hearAll 3 remB sL5.ring ∧ s'.ring.readyForRing = true ∧ TokenRing.LasIs s'.ring [3] :=
+  listener_learns_lone_ring [] 3 0 (by decide) insB sL5 remB 50 50 rfl rfl rfl (Int.le_refl _) rfl (by decide) (by decide) rfl
+    (by decide)
+    (by
+      intro t ht
+      simp only [remB, List.mem_cons, List.mem_nil_iff, or_false] at ht
+      rcases ht with rfl | rfl | rfl | rfl
+      · exact .inl rfl
+      · exact .inl rfl
+      · exact .inr ⟨4, by decide, by decide, rfl⟩
+      · exact .inl rfl)
+    (by decide)
+    ⟨by decide, by decide, by decide, by decide, by decide, by decide, trivial⟩
 
 end PV.C06
